@@ -5356,6 +5356,13 @@ class TensorDictBase(MutableMapping):
                 )
             suffix = len_metadata.numel() + metadata_dict_json.numel()
             if not use_buffer:
+                if (
+                    os.path.exists(filename)
+                    and os.path.getsize(filename) != filesize + suffix
+                ):
+                    # from_consolidated finds the metadata at the end of the file: a
+                    # longer file left by a former consolidation would keep its own
+                    os.truncate(filename, filesize + suffix)
                 total_storage = torch.from_file(
                     str(filename),
                     size=filesize + suffix,
